@@ -71,8 +71,10 @@ def main():
                 print("  patched tail:", out1[-300:].replace("\n", " | "))
                 continue
             dest = os.path.join(HERE, "seeded", sid)
-            if os.path.exists(os.path.join(dest, "patch.diff")) and open(os.path.join(dest, "patch.diff")).read() != open(patch).read():
-                dest += "_r2"       # a later round chose the slug of an earlier, different change
+            base, k = dest, 1
+            while os.path.exists(os.path.join(dest, "patch.diff")) and open(os.path.join(dest, "patch.diff")).read() != open(patch).read():
+                k += 1
+                dest = f"{base}_r{k}"       # a later round chose the slug of an earlier, different change
             os.makedirs(dest, exist_ok=True)
             for fn in ("patch.diff", "demo.py", "notes.md"):
                 if os.path.exists(os.path.join(d, fn)):
